@@ -12,6 +12,7 @@ PROP = dict(
           "Non-trivial = a delivered commit_sig covering >=1 non-dust HTLC and both queues non-empty at some step. "
           "Distinct = distinct (parameters, action trace)."),
     assumptions=[
+        'adversarial control (fourth session): the terminal TamperedSigEpilogue of C05 also runs here (a commitment_signed with one wrong htlc signature must be refused)',
         "secp256k1/sha256 behave as specified; musig2/ECDSA verification inside lnd is the agreement oracle for second-level txs",
         "aux (custom channel) leaves are the repo's MockAuxLeafStore (no extra leaves)",
         "known protocol race (concurrent adds violating reserve at receive time) ends a case as aborted_by_constraint, counted",
